@@ -359,7 +359,11 @@ fn generate(
 ) -> Result<ExitCode, anyhow::Error> {
     let blueprint: Blueprint = {
         let file = fs_err::OpenOptions::new().read(true).open(blueprint)?;
-        ron::de::from_reader(&file)?
+        // Whatever `Blueprint::persist` managed to write must be readable: the writer's own
+        // recursion limit is what bounds the depth of the file.
+        ron::Options::default()
+            .without_recursion_limit()
+            .from_reader(&file)?
     };
     let mut reporter = DiagnosticReporter::new();
 
